@@ -137,6 +137,12 @@ def main():
             cid = "fill%d" % fi
             cases.append((cid, "CASE %s\n%s\nPARAM 7 %d\nSOLVE EXACT %s\nACCESS\nGETBASIS\nSOLVE %s\nACCESS\nCHG obj 0 9\nSOLVE EXACT %s\nACCESS\nDUMP\n" % (
                 cid, lp_block(lp), fi % 3 != 0, "PD"[fi % 2], ["DUAL", "PRIMAL"][fi % 2], "DP"[fi % 2])))
+        # a row / column added through the API with a REPEATED index (accepted and stored as separate entries; the file readers
+        # merge such entries, the API does not), then every kind of solve
+        dbase = "LP dup MAX 3 2\nCOL ca 2 0 9\nCOL cb 5 0 11\nCOL cc 1 0 5\nROW r0 L 8 0 3 0 3 1 4 2 4\nROW r1 R 1 8 3 0 1 1 4 2 1\n"
+        for di_, (ed, sv) in enumerate([(e_, s_) for e_ in ("ADDROW L 1 2 0 3 0 2", "ADDCOL 1 0 5 3 0 1 0 2 0 3", "ADDROW G -4 3 1 1 2 1 1 2") for s_ in ("DUAL", "PRIMAL", "EXACT D", "EXACT P")]):
+            cid = "dupix%d" % di_
+            cases.append((cid, "CASE %s\n%s%s\nSOLVE %s\nACCESS\nGETBASIS\nDUMP\n" % (cid, dbase, ed, sv)))
         # very long names / long numbers through every writer (lines of about 4096 characters and more)
         lens = list(range(4080, 4110)) if ck.thorough() else [4087, 4088, 4089, 4094, 4095, 4096, 4097, 4103, 4104]
         for L in lens:
